@@ -108,7 +108,7 @@ func randomProgs(rng *fw.Rng, n, depth, budget int) []c01Prog {
 	var out []c01Prog
 	for i := 0; i < n; i++ {
 		nv := 2 + rng.Intn(3)
-		gn := &gen.Gen{R: rng, NVars: nv, Budget: budget, NoOr: i%5 < 3, Data: i%2 == 1}
+		gn := &gen.Gen{R: rng, NVars: nv, Budget: budget, NoOr: i%5 < 3, Data: i%2 == 1, Fail: i%4 == 2}
 		var kids []*gen.Block
 		first := gn.Block("task", depth, false)
 		kids = append(kids, first)
@@ -394,7 +394,7 @@ func init() {
 			}
 			return runStep("C01", c, env, nil)
 		},
-		Rule: "block-structured programs (every legal ordered nesting pair of {xor,and,or,loop,conditional-flow task,sub-process} + data-flow programs in which a condition reads what a task on another, already joined token wrote (sub-process, nested, parallel block, loop, exclusive branch, conditional flows) + PRNG programs, depth<=3/4, half of them with task-written data variables read by later conditions) x variable assignments steering the conditions x answer orders (all if <=limit else PRNG-drawn) run stepwise against the reference token game at every quiescent point, plus storm runs; the forced programs again with a deterministic schedule perturbation (the goroutine making the n-th hit of each of 21 instrumentation sites pauses 300 us); twin runs: three instances created from ONE parsed definitions value (a bystander parked at its first tasks, then two stepwise runs with opposite variable assignments), each against its own reference; non-trivial = >=1 gateway/conditional flow and (>=2 requests pending at once or a condition decided a route); distinct = descriptor hash",
+		Rule: "block-structured programs (every legal ordered nesting pair of {xor,and,or,loop,conditional-flow task,sub-process} + data-flow programs in which a condition reads what a task on another, already joined token wrote (sub-process, nested, parallel block, loop, exclusive branch, conditional flows) + PRNG programs, depth<=3/4, half of them with task-written data variables read by later conditions, a quarter with conditions that cannot be evaluated: error trace, alternative not taken) x variable assignments steering the conditions x answer orders (all if <=limit else PRNG-drawn) run stepwise against the reference token game at every quiescent point, plus storm runs; the forced programs again with a deterministic schedule perturbation (the goroutine making the n-th hit of each of 21 instrumentation sites pauses 300 us); twin runs: three instances created from ONE parsed definitions value (a bystander parked at its first tasks, then two stepwise runs with opposite variable assignments), each against its own reference; non-trivial = >=1 gateway/conditional flow and (>=2 requests pending at once or a condition decided a route); distinct = descriptor hash",
 		Assumptions: []string{"programs are block-structured and data-race-free by construction (conditions read variables no concurrently live branch writes)", "reference token game is the oracle"},
 	})
 }
